@@ -136,6 +136,10 @@ def gen_cases(tier, seed):
             centres = [[Fraction(x) for x in s["coord"]] for s in c["basis"]]
             c["pts"] = place_points(rng, centres, rng.randint(1, 5))
             c["nuclear"] = (i % 2 == 0)
+            # HISTORY (geometry scans, twoindex.add_history; the charges stay where they are): only where the exact
+            # model (Boys tables per charge) is cheap, so that no scan sets the wall time of the tier
+            if c.get("hist") and twoindex.cost_proxy(c) * len(c["pts"]) > (40000 if tier == "quick" else 120000):
+                c["hist"] = None
     return cases
 
 
